@@ -392,7 +392,16 @@ def gen_cfg(rng, tree, plain=False, ext_bias=False):
         if r < (0.5 if ext_bias else 0.3):
             kw["exclude_external_libraries"] = False
             r2 = rng.random() * (0.6 if ext_bias else 1.0)
-            if ext_bias and tree.fav_externals and rng.random() < 0.5:
+            if names_in_tree and rng.random() < 0.2:
+                # a pattern meant for libraries that also matches modules of the project itself (the
+                # library applies external exclusions to every module name)
+                hit = rng.sample(names_in_tree, min(len(names_in_tree), rng.randint(1, 2)))
+                pats = [f"*{n}*" for n in hit] + (["json"] if rng.random() < 0.5 else [])
+                if rng.random() < 0.6:
+                    kw["external_exclusions"] = sorted(set(pats))
+                else:
+                    kw["regex_external_exclusions"] = sorted({f".*{n}.*" for n in hit})
+            elif ext_bias and tree.fav_externals and rng.random() < 0.5:
                 # exclude exactly the top-level package of a library the project really imports
                 tops = sorted({e.split(".")[0] for e in tree.fav_externals})
                 chosen = rng.sample(tops, min(len(tops), rng.randint(1, 2)))
